@@ -271,7 +271,8 @@ def meaning : Ex R → Option (Nat × Nat × MatF R)
   | divs x s => do
       let (r, c, a) ← meaning x
       some (r, c, smulM s.inv a)
-  | sdiv _ _ => none     -- c / A = c · A⁻¹ is not a ring expression; handled by the harness oracle
+  | sdiv _ _ => none     -- c / A = c · A⁻¹ is not a ring expression: no meaning here.  The harness (c03.py `sdiv_oracle`)
+                         -- computes c · A⁻¹ exactly and substitutes it as a leaf before asking for the meaning
   | addz x => meaning x
   | matmul x y => do
       let (r, c, a) ← meaning x
@@ -344,6 +345,14 @@ hypotheses `NoScalarOverOp`, `NoLossyComplex` of `C03_sound_partial` hold
 def clauses (re : R → R) (e : Ex R) : List String :=
   (if anyNode isSdiv e then ["scalar-divided-by-operator"] else []) ++
   (if anyNode (lossyNode re) e then ["complex-scalar-real-operator"] else [])
+
+/-- the clauses the ROOT node of the expression is an instance of (not its sub-expressions): the
+harness attributes a code/spec disagreement to a clause only at the sub-expression where the
+disagreement first appears, and only if that node is an instance (`rootClauses_sub`:
+Lemmas/ExprClauses.lean) -/
+def rootClauses (re : R → R) (e : Ex R) : List String :=
+  (if isSdiv e then ["scalar-divided-by-operator"] else []) ++
+  (if lossyNode re e then ["complex-scalar-real-operator"] else [])
 
 mutual
 /-- does the expression denote a plain array (computed by NumPy) rather than an operator?
